@@ -96,7 +96,7 @@ PROPS = {
         "rule": ("pattern strings of length 0-12 over letters, upper case, non-ASCII (cased, uncased, folding-lowercase, title case), every kind of whitespace, "
                  "backslash and the four markers, all CaseMatching x Normalization; reference grammar + ASCII->non-ASCII substitution metamorphic check + "
                  "escape round trip + reparse on a reused object; distinct_nontrivial = distinct pattern strings yielding at least one atom"),
-        "require": {"any": {"c14.parsed": 1000, "c14.metamorphic": 500, "c14.escape-roundtrip": 1000, "c14.reparsed": 1000, "c14.sweep-parsed": 100000}},
+        "require": {"any": {"c14.parsed": 1000, "c14.metamorphic": 500, "c14.escape-roundtrip": 1000, "c14.reparsed": 1000, "c14.sweep-parsed": 100000, "c14.parsed-with-multi-code-point-clusters": 1000}},
         "assumptions": ["reference grammar pinned to the repository's documented ASCII behaviour where the property text is silent (DESIGN.md C14)",
                         "upper case judged only where Unicode Uppercase and chars::is_upper_case agree"],
     },
